@@ -1116,6 +1116,7 @@ class Interp:
         h_truthy, h_falsy = h.truthy, h.falsy
         body_states = []
         res = []
+        self._last_loop_exits = True
         if kind_ == 'while':
             outs, raises = self.branch(s.test, h)
             for r in raises:
@@ -1126,6 +1127,7 @@ class Interp:
                     body_states.append(s2)
                 else:
                     exit_states.append(s2)
+            self._last_loop_exits = bool(exit_states)
         else:
             if bind_target is not None:
                 elem = ('elem', iter_term, lid)
@@ -1191,10 +1193,10 @@ class Interp:
         # break / escape paths: prefix the pre-loop trace and condition
         out = []
         for s2 in breaks:
-            s2.trace = pre.trace + (('loop-iter', lid),) + s2.trace
+            s2.trace = pre.trace + (ev, ('loop-iter', lid)) + s2.trace
             out.append((s2, 'break', None))
         for s2, oc, v in escapes:
-            s2.trace = pre.trace + (('loop-iter', lid),) + s2.trace
+            s2.trace = pre.trace + (ev, ('loop-iter', lid)) + s2.trace
             out.append((s2, oc, v))
         for r in res:
             r[0].trace = pre.trace + r[0].trace
@@ -1271,7 +1273,9 @@ class Interp:
         # constant-false test: loop never runs
         post, out, lid = self._run_loop(s, st, 'while', None, None)
         res = []
-        if s.orelse:
+        if not self._last_loop_exits:
+            pass        # `while True:` - left only through break/return/raise
+        elif s.orelse:
             res.extend(self.exec_block(s.orelse, post))
         else:
             res.append((post, 'normal', None))
